@@ -568,9 +568,11 @@ def run_process(
                     if s is None or kind != "like":
                         return
                     b = s.last_checkpoint_bytes
-                    if b is None:
-                        b = initial_file_payload
                     fb = read_file_checkpoint(file_path)
+                    if b is None and fb is not None and fb == initial_file_payload:
+                        # before this run's first checkpoint the file may still hold, intact, the final
+                        # payload of an earlier run (or nothing, if a fresh run clears it)
+                        return
                     if fb != b:
                         res.file_audit_failures.append(
                             {
